@@ -45,6 +45,13 @@ pub fn name_pools() -> Vec<(Vec<&'static str>, Vec<&'static str>)> {
         (vec!["item", "root", "children", "attributes", "text", "position"], vec!["id", "root"]),
         // U+FFFD is an ordinary character of a name (and what a lossy decoder writes for bad bytes)
         (vec!["a\u{FFFD}", "a", "a\u{FFFD}b", "\u{FFFD}", "a\u{FFFD}\u{FFFD}"], vec!["k\u{FFFD}", "k", "\u{FFFD}"]),
+        // letters beyond the Basic Multilingual Plane next to letters above U+E000 (the two orders
+        // "by code point" and "by UTF-16 unit" differ exactly there)
+        (vec!["\u{FB01}", "\u{10428}", "b", "\u{FB01}x", "\u{1D4B3}", "\u{FF41}"], vec!["\u{FB01}", "\u{10428}", "a", "\u{E000}", "\u{FF21}"]),
+        // names whose PascalCase form starts with a digit; names that collide under the classic
+        // 31-multiplier string hash (Aa / BB)
+        (vec!["totals", "_2024", "_1", "1a", "item", "totals2024"], vec!["_1", "k", "_2024"]),
+        (vec!["aa", "bB", "aaaa", "bBbB", "aabB", "item", "Aa", "BB"], vec!["Aa", "BB", "AaAa", "BBBB"]),
     ]
 }
 
@@ -469,7 +476,7 @@ pub fn run_docprop(ctx: &mut Ctx, p: DocProp) {
     ctx.meta.push(("evaluations", J::N(evaluations)));
     ctx.meta.push(("distinct_nontrivial", J::N(distinct.len() as i64)));
     ctx.meta.push(("rule", json::s(format!(
-        "documents as DOM trees serialised with random incidental detail: {}{} random sequences of 1-{} documents with a common root (26 fixed name pools and, for a third of the cases, a pool of random names incl. keywords, case/separator variants, prefixed, non-ASCII, concatenation traps; depth<=5, fan-out<=6); {}; non-trivial = at least 3 nodes, distinct by DOM sequence",
+        "documents as DOM trees serialised with random incidental detail: {}{} random sequences of 1-{} documents with a common root (29 fixed name pools and, for a third of the cases, a pool of random names incl. keywords, case/separator variants, prefixed, non-ASCII, concatenation traps; depth<=5, fan-out<=6); {}; non-trivial = at least 3 nodes, distinct by DOM sequence",
         exh_note, n_rand, p.max_docs, p.what))));
     ctx.meta.push(("histogram", hist.json()));
     ctx.meta.push(("samples", J::A(samples)));
@@ -499,7 +506,11 @@ fn rand_ident(rng: &mut Rng) -> String {
         // incl. strings that are themselves the beginning of attribute names of the pools
         rng.pick(&["$text", "$value", "text", "#text", "body", "", "@", "attr_", "_", "x-", " ", "$", "Text", "text_content", "a", "x", "k", "id", "i", "xml", "xmlns", "p:", "a-",
                    // identifiers that equal (prefix +) the name of an attribute of the pools
-                   "value", "@value", "@id", "@x", "lang", "@lang", "@k", "@a", "y", "@y", "z", "{}", "%s"]).to_string()
+                   "value", "@value", "@id", "@x", "lang", "@lang", "@k", "@a", "y", "@y", "z", "{}", "%s",
+                   // a prefix that, put before the local name, spells the field identifier (p:id -> p_id)
+                   "p_", "q_", "ns_", "ns1_", "xsi_", "xml_", "xmlns_", "a_", "x_", "e_",
+                   // multi-byte prefixes (anything that counts characters where bytes are meant)
+                   "\u{f8}_", "\u{a7}", "\u{2192}@", "\u{e9}", "\u{416}\u{416}_", "\u{1F600}"]).to_string()
     } else {
         rand_string(rng, &['$', '@', '#', 't', 'e', 'x', '_', '-', ' ', ':', 'T', '1', 'я'], 6)
     }
@@ -588,8 +599,54 @@ fn giant_order_check(ctx: &mut Ctx, n: usize) {
     ctx.meta.push(("x_giant_order_children", J::N(n as i64)));
     ctx.meta.push(("x_giant_order_seconds", J::F((t0.elapsed().as_secs_f64() * 10.0).round() / 10.0)));
 }
+/// implementation-only: a chain of `depth` distinct elements with a later sibling of the first
+/// link: the struct definitions must follow the pre-order walk however deep the chain is
+fn deep_order_check(ctx: &mut Ctx, depth: usize) {
+    let mut doc = String::from("<r>");
+    for i in 0..depth {
+        doc.push_str(&format!("<d{} k=\"1\">", i));
+    }
+    for i in (0..depth).rev() {
+        if i == depth / 2 {
+            doc.push_str("<m k=\"1\"/>");
+        }
+        doc.push_str(&format!("</d{}>", i));
+    }
+    doc.push_str("<z k=\"1\"/></r>");
+    let mut tab = ErrTab::default();
+    let res = run_impl_guarded(&[doc.clone().into_bytes()], &RCfg::default(), &mut tab, 120);
+    let ImplResult::Tree(_, e) = &res else {
+        ctx.impl_failures.push(json::obj(vec![("check", json::s("deep-order")), ("what", json::s(format!("a chain of {} nested elements is not parsed: {}", depth, res.class())))]));
+        return;
+    };
+    for sorted in [false, true] {
+        let out = match render(e, &Opts::quick_xml().sorted(sorted)) {
+            Ok(o) => o,
+            Err(m) => {
+                ctx.impl_failures.push(json::obj(vec![("check", json::s("deep-order")), ("what", json::s(format!("rendering a chain of {} nested elements panics: {}", depth, m)))]));
+                return;
+            }
+        };
+        let structs: Vec<String> = out.lines().filter(|l| l.starts_with("pub struct ")).map(|l| l[11..].split(' ').next().unwrap_or("").to_lowercase()).collect();
+        let mut expected: Vec<String> = vec!["r".to_string()];
+        expected.extend((0..depth).map(|i| format!("d{}", i)));
+        // `m` is the second child of d(depth/2): after the whole rest of the chain; then `z`
+        expected.push("m".to_string());
+        expected.push("z".to_string());
+        if structs != expected {
+            let at = structs.iter().zip(expected.iter()).position(|(a, b)| a != b).unwrap_or(structs.len().min(expected.len()));
+            ctx.impl_failures.push(json::obj(vec![
+                ("check", json::s("deep-order")),
+                ("what", json::s(format!("<r><d0><d1>...<d{}/>... <m/> ...</d0><z/></r> (chain of {} elements), sort={}: struct definitions are not in pre-order; first difference at index {}: got {:?}, expected {:?}", depth - 1, depth, sorted, at, structs.get(at), expected.get(at)))),
+                ("documents", J::A(vec![json::s(format!("<r><d0 k=\"1\"><d1 k=\"1\">...({} levels; <m k=\"1\"/> after d{})...</d0><z k=\"1\"/></r>", depth, depth / 2 + 1))])),
+            ]));
+        }
+    }
+    ctx.meta.push(("x_deep_order_levels", J::N(depth as i64)));
+}
 pub fn c09(ctx: &mut Ctx) {
     giant_order_check(ctx, if ctx.thorough { 20011 } else { 10007 });
+    deep_order_check(ctx, if ctx.thorough { 3000 } else { 1500 });
     let mut evals = corr_core();
     evals.extend(vec![ev("exact", "or_exact", "oracle"), ev("reflects", "or_reflects", "oracle"), ev("only_order", "or_only_order", "oracle"), ev("hyp", "in_hyp_docs", "hyp")]);
     fn tweak(g: &mut GenCfg, rng: &mut Rng) {
